@@ -481,3 +481,13 @@ Proof.
   rewrite !auth_build_http_response_eq, !responses_build_http_response_eq.
   repeat split; reflexivity.
 Qed.
+
+(* ================================================================== Tls/Intercept.v (C11) *)
+From PM Require Tls.Intercept Http.Upstream.
+(* C11 writes the CONNECT acknowledgement as a literal and has its own strip_brackets *)
+Theorem intercept_tunnel_pkt_shared :
+  PM.Tls.Intercept.PROXY_TUNNEL_ESTABLISHED_RESPONSE_PKT = R.PROXY_TUNNEL_ESTABLISHED_RESPONSE_PKT.
+Proof. vm_compute. reflexivity. Qed.
+Theorem intercept_strip_brackets_shared h :
+  PM.Tls.Intercept.strip_brackets h = PM.Http.Upstream.strip_brackets h.
+Proof. reflexivity. Qed.
